@@ -9,6 +9,7 @@
 From Coq Require Import ZArith QArith List Bool.
 From DS Require Import Base.ZMat Base.SGDefs Model.C05_QBase Model.C06_UCert.
 From DS Require Import Proofs.C05_RunSpec Proofs.C05_QLemmas Proofs.C06_USound Proofs.C05_Example.
+From DS Require Import Model.C06_Query Gen.C06_QueryGuards Model.C06_QueryMethods Proofs.C06_QuerySound Proofs.C06_QueryGuards.
 Import ListNotations.
 Open Scope Q_scope.
 
@@ -70,3 +71,31 @@ Proof. exact u_cert_nonvacuous. Qed.
 Theorem C06_empty_answer_iff_accepted : forall G c, u_cert_failed G c = [] <-> u_cert_ok G c = true.
 Proof. exact u_failed_nil. Qed.
 Print Assumptions C06_empty_answer_iff_accepted.
+
+(* ---- the position query that opens GeneratorSite.UFormula (model: Model/C06_Query.v; the tolerance handed to equalPositions is read from the
+   current source into Gen/C06_QueryGuards.v on every run).  e = the eps the site was built with, sites = eqxyz.
+   Answered (Some i)  -> i is a listed position within e of pos modulo lattice translations, none is nearer, eqIndex agrees;
+   every pos within e of SOME listed position is answered; the empty answer means none is within e; a wider eps keeps answers. *)
+Theorem C06_formula_query_honours_site_eps : forall e sites q,
+  (forall i, u_formula_query e sites q = Some i ->
+     (i < List.length sites)%nat /\ NearInt3 e (q3sub (nth i sites q3zero) q) /\
+     (forall j, (j < List.length sites)%nat -> boxd (nth i sites q3zero) q <= boxd (nth j sites q3zero) q) /\
+     eq_index_query sites q = Some i) /\
+  (forall j, (j < List.length sites)%nat -> NearInt3 e (q3sub (nth j sites q3zero) q) ->
+     exists i, u_formula_query e sites q = Some i) /\
+  (u_formula_query e sites q = None ->
+     forall j, (j < List.length sites)%nat -> ~ NearInt3 e (q3sub (nth j sites q3zero) q)) /\
+  (forall e' i, e <= e' -> u_formula_query e sites q = Some i -> u_formula_query e' sites q = Some i).
+Proof. exact u_query_spec. Qed.
+Print Assumptions C06_formula_query_honours_site_eps.
+
+(* positionFormula and UFormula accept exactly the same points; SymmetryConstraints / ExpandAsymmetricUnit build their sites with their own eps *)
+Theorem C06_queries_agree_and_eps_is_passed_on : (forall e sites q, u_formula_query e sites q = position_formula_query e sites q) /\
+  (forall e, site_eps_in_SymmetryConstraints e = e /\ site_eps_in_ExpandAsymmetricUnit e = e).
+Proof. exact (Logic.conj queries_agree constructors_pass_eps). Qed.
+Print Assumptions C06_queries_agree_and_eps_is_passed_on.
+
+Theorem C06_query_example :
+  let sites := [Q3 0 0 0; Q3 (1 # 2) (1 # 2) 0] in let q := Q3 (15003 # 10000) (-4998 # 10000) (1 # 10000) in
+  site_query (1 # 1000) sites q = Some 1%nat /\ site_query (1 # 100000) sites q = None /\ eq_index sites q = Some 1%nat.
+Proof. exact site_query_example. Qed.
